@@ -2012,6 +2012,19 @@ fn run(v: &Value) -> Result<String, String> {
                     cases += 1;
                 }
             }
+            // the value-stream `next` handler parks on its producer, so it declares itself OffReader, with or without middleware around it
+            {
+                use repe::value_stream::{RouterValueStreamExt, StreamOpts, ROUTE_NEXT, ROUTE_OPEN};
+                use repe::{Execution, Message, Next};
+                let mw = |req: &Message, next: Next<'_>| -> Result<Message, RepeError> { next.run(req) };
+                let mk = || Router::new().with_writer_stream(repe::BodyFormat::RawBinary, |_r: &str| Some(|w: &mut dyn std::io::Write| -> std::io::Result<()> { w.write_all(b"x") }), StreamOpts::default());
+                for (name, r) in [("no middleware", mk()), ("middleware registered afterwards", mk().with_middleware(mw))] {
+                    let e = r.get(ROUTE_NEXT).ok_or("svs next route missing")?.execution();
+                    if e != Execution::OffReader { return Err(format!("{name}: the value-stream next handler reports execution {e:?}; a pull that waits for its producer must not run on the reader")); }
+                    let _ = r.get(ROUTE_OPEN).ok_or("svs open route missing")?;
+                    cases += 1;
+                }
+            }
             // with the cap removed (limit 0) blocking handlers still run off the reader: five park at once and an inline request is answered
             {
                 let running = Arc::new(AtomicUsize::new(0));
@@ -2047,6 +2060,53 @@ fn run(v: &Value) -> Result<String, String> {
                     match pong { Ok(Ok(v)) if v == json!("pong") => {}, other => return Err(format!("unlimited cap: an inline /ping behind five parked blocking handlers got {other:?}: the reader is blocked")) }
                     for h in hs { let _ = tokio::time::timeout(Duration::from_secs(5), h).await; }
                     drop(client); server_task.abort();
+                    Ok(())
+                });
+                res?;
+                cases += 1;
+            }
+            // a default-configured server caps at the documented default (16): of 20 concurrent blocking requests exactly 16 run, 4 are refused at once
+            {
+                let running = Arc::new(AtomicUsize::new(0));
+                let gate = Arc::new(Gate { released: Mutex::new(HashMap::new()), cv: Condvar::new() });
+                let (r2, g2) = (running.clone(), gate.clone());
+                let router = Router::new()
+                    .with_json_blocking("/hold", move |v| {
+                        let key = v["key"].as_u64().unwrap_or(0);
+                        r2.fetch_add(1, Ordering::SeqCst);
+                        let mut rel = g2.released.lock().unwrap();
+                        while !rel.get(&key).copied().unwrap_or(false) { rel = g2.cv.wait(rel).unwrap(); }
+                        Ok(json!({"key": key}))
+                    })
+                    .with_json("/ping", |_| Ok(json!("pong")));
+                let res: Result<(), String> = rt.block_on(async {
+                    let listener = tokio::net::TcpListener::bind(("127.0.0.1", 0)).await.map_err(|e| e.to_string())?;
+                    let addr = listener.local_addr().unwrap();
+                    let shared = WebSocketServer::new(router).into_shared();
+                    let server_task = tokio::spawn(async move { loop { let Ok((stream, _)) = listener.accept().await else { break }; let shared = shared.clone(); tokio::spawn(async move { if let Ok(ws) = WebSocketServer::accept(stream, "/repe").await { let _ = shared.serve_connection(ws).await; } }); } });
+                    let client = WebSocketClient::connect(&format!("ws://{addr}/repe")).await.map_err(|e| e.to_string())?;
+                    let refused = Arc::new(AtomicUsize::new(0));
+                    let mut hs = Vec::new();
+                    for k in 0..20u64 {
+                        let c = client.clone();
+                        let rf = refused.clone();
+                        hs.push(tokio::spawn(async move {
+                            let r = c.call_json("/hold", &json!({"key": k})).await;
+                            if let Err(RepeError::ServerError { code, .. }) = &r { if *code == ErrorCode::ResourceExhausted { rf.fetch_add(1, Ordering::SeqCst); } }
+                            r
+                        }));
+                    }
+                    let t0 = std::time::Instant::now();
+                    while running.load(Ordering::SeqCst) + refused.load(Ordering::SeqCst) < 20 && t0.elapsed() < Duration::from_secs(10) {
+                        tokio::time::sleep(Duration::from_millis(5)).await;
+                    }
+                    tokio::time::sleep(Duration::from_millis(100)).await;
+                    let (ran, rej) = (running.load(Ordering::SeqCst), refused.load(Ordering::SeqCst));
+                    for k in 0..20u64 { gate.released.lock().unwrap().insert(k, true); } gate.cv.notify_all();
+                    for h in hs { let _ = tokio::time::timeout(Duration::from_secs(5), h).await; }
+                    drop(client); server_task.abort();
+                    if ran > 16 { return Err(format!("default configuration: {ran} off-reader handlers ran at once; the documented default cap is 16")); }
+                    if ran + rej == 20 && (ran, rej) != (16, 4) { return Err(format!("default configuration: of 20 concurrent blocking requests {ran} ran and {rej} were refused with ResourceExhausted; expected 16 and 4")); }
                     Ok(())
                 });
                 res?;
